@@ -2,6 +2,7 @@ import Proofs.OalExpr
 import Proofs.OalStmt
 import Gen.OalPrec
 import Proofs.OalLayout
+import Proofs.OalTight
 
 /-!
   C07 — OAL parsing follows the precedence table and ignores layout.   (TOKEN level)
@@ -15,7 +16,8 @@ import Proofs.OalLayout
 -/
 namespace PyxProps.C07
 open Pyx.Oal
-open Pyx.Gen.OalPrec (table binOps binProds unOps unaryProd unaryRow unaryPrecName stmtProds exprProds)
+open Pyx.Gen.OalPrec (table binOps binProds unOps unaryProd unaryRow unaryPrecName stmtProds exprProds kwIdent1 kwIdent2
+  kwIdent3 kwIdent4)
 
 /-! ## 1. the precedence round trip, for ANY well-formed table and ANY tree (unbounded depth) -/
 
@@ -204,12 +206,22 @@ theorem grammar_shape : stmtProds.map Prod.sem = stmtGrammar := by
 theorem expr_grammar_shape : exprProds.map Prod.sem = exprGrammar := by
   rfl
 
+/-- the two name classes of the model are exactly the grammar's: `variable_name` / `rel_id` accept ID and the
+    alternatives of kw_as_identifier_1; `identifier` accepts those and the alternatives of kw_as_identifier_2..4
+    (the lists are read from oal.py; `grammar_shape` ties `limited_identifier` / `identifier` / `variable_name` /
+    `rel_id` / `instance_name` / `phrase` to these classes) -/
+theorem name_classes :
+    (∀ k : Kind, k.isVarName = true ↔ (k = .ID ∨ k ∈ kwIdent1)) ∧
+    (∀ k : Kind, k.isIdent = true ↔ (k.isVarName = true ∨ k ∈ kwIdent2 ++ kwIdent3 ++ kwIdent4)) :=
+  ⟨forall_kind (by decide), forall_kind (by decide)⟩
+
 /-! ## non-vacuity: concrete instances of the hypotheses, and what the theorems then say -/
 
 section examples
 
-private def va : Expr := .var "a"
-private def vb : Expr := .var "b"
+private def nm (s : String) : Tok := tk .ID s
+private def va : Expr := .var (nm "a")
+private def vb : Expr := .var (nm "b")
 private def n3 : Expr := .int "3"
 private def plus : Tok := ⟨.PLUS, "+"⟩
 private def minus : Tok := ⟨.MINUS, "-"⟩
@@ -225,12 +237,16 @@ private def e1 : Expr := .bin (.bin va plus vb) times n3
 private def e2 : Expr := .bin va lt (.bin vb lt n3)
 /-- `x.f[i + 1].g + ::h(p: not a, q: NS::c) * self.op()` -/
 private def e3 : Expr :=
-  .bin (.field (.index (.field (.var "x") "f") (.bin (.var "i") plus (.int "1"))) "g") plus
-    (.bin (.fcall "h" (.cons "p" (.un knot va) (.cons "q" (.enumc "NS" "c") .nil))) times (.ocall .self "op" .nil))
+  .bin (.field (.index (.field (.var (nm "x")) (nm "f")) (.bin (.var (nm "i")) plus (.int "1"))) (nm "g")) plus
+    (.bin (.fcall (nm "h") (.cons (nm "p") (.un knot va) (.cons (nm "q") (.enumc "NS" (nm "c")) .nil))) times
+      (.ocall .self (nm "op") .nil))
 
 -- prec_roundtrip / prec_roundtrip_oal: hypotheses are satisfiable, the required parentheses are written …
-example : e1.Ok table := by simp [e1, Expr.Ok, va, vb, n3, plus, times]; decide
-example : e3.Ok table := by simp [e3, Expr.Ok, Params.Ok, va, plus, times, knot, Expr.isChain, Expr.isIndexable, Expr.isStruct]; decide
+example : e1.Ok table := by simp [e1, Expr.Ok, va, vb, n3, plus, times, nm, Kind.isVarName]; decide
+example : e3.Ok table := by
+  simp [e3, Expr.Ok, Params.Ok, va, plus, times, knot, Expr.isChain, Expr.isIndexable, Expr.isStruct, nm,
+    Kind.isVarName, Kind.isIdent]
+  decide
 example : Stops table 0 [semi] := stops_afterExpr table_stmt_wellformed 0 semi [] rfl
 example : render table e1 0 = [LP, tk .ID "a", plus, tk .ID "b", RP, times, tk .NUMBER "3"] := by decide
 example : parseExprTop table (render table e1 0 ++ [semi]) = some (e1, [semi]) := by rfl
@@ -263,24 +279,57 @@ example : parseExprTop table (renderFull e1 ++ [semi]) = some (e1, [semi]) := by
 /-- `if a < 3 x = 1; elif not a then break; else select many ys related by self->K[R1.'p'] where selected.n == 3; end if;
      while a loop generate E1:'go'(v: 3) to K assigner; end while; return;` -/
 private def prog : Block :=
-  .cons (.if_ (.bin va lt n3) false (.cons (.assign false (.var "x") (.int "1")) .nil)
+  .cons (.if_ (.bin va lt n3) false (.cons (.assign false (.var (nm "x")) (.int "1")) .nil)
       (.cons (.un knot va) true (.cons .brk .nil) .nil)
-      (.some (.cons (.selRel ⟨.many, "many"⟩ "ys" .self [⟨"K", "R1", some "'p'"⟩]
-        (some (.bin (.field .selected "n") eqeq n3))) .nil)))
-  (.cons (.while_ va true (.cons (.gen ⟨"E1", false, some "'go'", true, .cons "v" n3 .nil⟩ (.cls "K" true)) .nil))
+      (.some (.cons (.selRel ⟨.many, "many"⟩ (nm "ys") .self [⟨nm "K", nm "R1", some (.ticked "'p'")⟩]
+        (some (.bin (.field .selected (nm "n")) eqeq n3))) .nil)))
+  (.cons (.while_ va true (.cons (.gen ⟨nm "E1", false, some (.ticked "'go'"), true, .cons (nm "v") n3 .nil⟩
+      (.cls (nm "K") true)) .nil))
   (.cons (.ret none) .nil))
 
 -- stmt_roundtrip / stmt_roundtrip_oal
 example : prog.Ok table := by
-  simp [prog, Block.Ok, Stmt.Ok, Elifs.Ok, Else.Ok, Expr.Ok, Params.Ok, EvSpec.Ok, EvTarget.Ok, optExprOk, va, n3, lt, knot,
-    eqeq, Expr.isVarAccess, Expr.isHook, Expr.isSelf, Expr.isChain]
+  simp [prog, Block.Ok, Stmt.Ok, Elifs.Ok, Else.Ok, Expr.Ok, Params.Ok, EvSpec.Ok, EvTarget.Ok, NavStep.Ok, Phrase.Ok,
+    optPhraseOk, optExprOk, va, n3, lt, knot, eqeq, Expr.isVarAccess, Expr.isHook, Expr.isSelf, Expr.isChain, nm,
+    Kind.isVarName, Kind.isIdent]
   decide
 example : (printStmts table prog).length = 57 := by decide
 example : parseStmts table (printStmts table prog) = some prog := by rfl
 example : BlockEnd [tk .END_IF "end if", semi] := blockEnd_cons _ _ rfl
 
+/-- keywords as names, where the grammar allows them:
+    `select = to.from[in] + ::class(and: 1);  select any any from instances;  relate to to from across across.using;
+     generate self:event to stop class;` -/
+private def kwprog : Block :=
+  .cons (.assign false (.var (tk .SELECT "select"))
+      (.bin (.index (.field (.var (tk .TO "to")) (tk .FROM "from")) (.var (tk .IN "in"))) plus
+        (.fcall (tk .CLASS "class") (.cons (tk .AND "and") (.int "1") .nil))))
+  (.cons (.selFrom ⟨.any, "any"⟩ (tk .ANY "any") false (tk .INSTANCES "instances") none)
+  (.cons (.rel false (.var (tk .TO "to")) (.var (tk .FROM "from")) (tk .ACROSS "across")
+      (some (.ident (tk .USING "using"))) none)
+  (.cons (.gen ⟨tk .SELF "self", false, some (.ident (tk .EVENT "event")), false, .nil⟩ (.cls (tk .STOP "stop") false))
+  .nil)))
+
+example : kwprog.Ok table := by
+  simp [kwprog, Block.Ok, Stmt.Ok, Expr.Ok, Params.Ok, EvSpec.Ok, EvTarget.Ok, InstName.Ok, Phrase.Ok, optPhraseOk,
+    optInstOk, optExprOk, plus, Expr.isVarAccess, Expr.isChain, Expr.isIndexable, Kind.isVarName, Kind.isIdent]
+  decide
+example : (printStmts table kwprog).map (·.lex) =
+    ["select", "=", "to", ".", "from", "[", "in", "]", "+", "::", "class", "(", "and", ":", "1", ")", ";",
+     "select", "any", "any", "from", "instances", ";",
+     "relate", "to", "to", "from", "across", "across", ".", "using", ";",
+     "generate", "self", ":", "event", "to", "stop", "class", ";"] := by decide
+example : parseStmts table (printStmts table kwprog) = some kwprog := by rfl
+-- the same keyword in keyword role: `select any x from instances of K;` is a select, `select = 1;` an assignment
+example : parseStmts table [tk .SELECT "select", tk .EQUAL "=", tk .NUMBER "1", semi] =
+    some (.cons (.assign false (.var (tk .SELECT "select")) (.int "1")) .nil) := by rfl
+-- a keyword that the grammar does not allow as a variable name is rejected: `x = of;`, `x = loop;`
+example : parseStmts table [nm "x", tk .EQUAL "=", tk .OF "of", semi] = none := by rfl
+example : parseStmts table [nm "x", tk .EQUAL "=", tk .LOOP "loop", semi] = none := by rfl
+
 -- grammar_shape: the compared lists are not empty
-example : stmtGrammar.length = 101 ∧ exprGrammar.length = 66 := by decide
+set_option maxRecDepth 4000 in
+example : stmtGrammar.length = 153 ∧ exprGrammar.length = 66 := by decide
 
 end examples
 
@@ -293,8 +342,8 @@ end examples
     whitespace, line breaks, comments … parses back to exactly that tree" for the modelled lexer and parser.
     Side conditions are lexical facts of the language: the bare word `end` is not a lexeme (`end`+space+`if` is one
     token), a `/` token is not directly followed by a separator starting with `/`, a namespace and its `::`
-    are one fused unit.  The tight variant (no separator where the next character cannot extend the token) is NOT
-    proved; tight layouts are covered by the correspondence runs only. -/
+    are one fused unit.  The tight variant (no separator where the next character cannot extend the token) is
+    `layout_irrelevant_tight` below. -/
 
 theorem layout_irrelevant (sep0 : List Char) (items : List (List Char × List Char × List Char))
     (h0 : Pyx.OalLex.Layout0 sep0) (h : Pyx.OalLex.ItemsOk items) :
@@ -307,5 +356,19 @@ theorem layout_irrelevant_units (sep0 : List Char) (units : List (Pyx.OalLex.Ite
     (Pyx.OalLex.lex (sep0 ++ Pyx.OalLex.renderUnits units)).map (fun t => (t.kind, t.lexeme)) =
       (units.map (fun u => u.1.toks)).flatten :=
   Pyx.OalLex.layout_irrelevant_units sep0 units h0 h
+
+/-- TIGHT layout (builder-A2, Proofs/OalTight.lean): no separator is needed between two lexical units whose
+    adjacency the decidable `tightOk` accepts (`PairOk`), resp. under the semantic side condition `SemOk` -/
+theorem layout_irrelevant_tight (sep0 : List Char) (units : List (Pyx.OalLex.LexUnit × List Char))
+    (h0 : Pyx.OalLex.Layout0 sep0) (h : Pyx.OalLex.PairOk units) :
+    (Pyx.OalLex.lex (sep0 ++ Pyx.OalLex.renderT units)).map (fun t => (t.kind, t.lexeme)) =
+      (units.map (fun p => p.1.toks)).flatten :=
+  Pyx.OalLex.layout_irrelevant_tight sep0 units h0 h
+
+theorem layout_irrelevant_sem (sep0 : List Char) (units : List (Pyx.OalLex.LexUnit × List Char))
+    (h0 : Pyx.OalLex.Layout0 sep0) (h : Pyx.OalLex.SemOk units) :
+    (Pyx.OalLex.lex (sep0 ++ Pyx.OalLex.renderT units)).map (fun t => (t.kind, t.lexeme)) =
+      (units.map (fun p => p.1.toks)).flatten :=
+  Pyx.OalLex.layout_irrelevant_sem sep0 units h0 h
 
 end PyxProps.C07
